@@ -126,6 +126,7 @@ func execute(t *testing.T, c Case) (viol string, hang string) {
 	pubSeq := 0
 	gossiped := 0 // gossip messages handed to the watcher before Close (each becomes a delivery once released)
 	var calls []*call
+	var stepOf []int      // calls[k] was started by step stepOf[k] (-1: harness-issued)
 	closed := false       // a Close call has been started
 	pushes, nexts := 0, 0 // pushing Direct calls / Next calls started before any Close
 	seen := map[int]bool{}
@@ -191,7 +192,7 @@ func execute(t *testing.T, c Case) (viol string, hang string) {
 			} else {
 				// gossip messages the watcher delivers (gossiped) compete with Direct calls for the one slot
 				wantD := min(pushes, max(0, nexts+1-gossiped)) + (count("direct") - pushes) // duplicates return at once
-				wantN := min(pushes, nexts) // consumers are served by Direct items or gossip items, whichever comes
+				wantN := min(pushes, nexts)                                                 // consumers are served by Direct items or gossip items, whichever comes
 				if fd := finished("direct"); fd < wantD {
 					missing = fmt.Sprintf("%d of %d Direct calls returned, %d must have (one delivery slot, %d consumers)", fd, count("direct"), wantD, nexts)
 				} else if fn := finished("next"); fn < wantN {
@@ -259,6 +260,21 @@ func execute(t *testing.T, c Case) (viol string, hang string) {
 				return "", h
 			}
 			s.Conc = false
+			// a Direct call for the same CID that is still pending may or may not have recorded the CID yet
+			// (it may not even have been scheduled): the model could not tell what the un-cache removes
+			skip := false
+			for k, cl := range calls {
+				if cl.op == "direct" && c.Steps[stepOf[k]].Cid == s.Cid {
+					select {
+					case <-cl.done:
+					default:
+						skip = true
+					}
+				}
+			}
+			if skip {
+				continue
+			}
 		}
 		if !closed {
 			switch s.Op {
@@ -277,6 +293,7 @@ func execute(t *testing.T, c Case) (viol string, hang string) {
 			closed = true
 		}
 		calls = append(calls, start(s))
+		stepOf = append(stepOf, i)
 		if s.Conc && i+1 < len(c.Steps) {
 			continue
 		}
@@ -292,6 +309,7 @@ func execute(t *testing.T, c Case) (viol string, hang string) {
 	if !closed {
 		closed = true
 		calls = append(calls, start(step{Op: "close"}))
+		stepOf = append(stepOf, -1)
 	}
 	if wasParked {
 		// Close is called while the watcher sits between dequeuing a message and the receiver's lock
